@@ -28,9 +28,25 @@ fn make_shape(name: String, em: Emitted) -> Shape {
 
 /// run one delivery and judge; returns (was_decodable, completed)
 fn deliver(sh: &Shape, delivered: &[usize], tag: &str, out: &mut Vec<Violation>) -> (u64, u64) {
+    deliver_paced(sh, delivered, tag, None, out)
+}
+
+/// `slow_s`: the packets reach the receiver that many seconds apart (a low-bitrate channel, heavy loss), the receiver
+/// runs with its default object timeout (10 s of INACTIVITY) and the application calls cleanup() after every push:
+/// no gap comes near the timeout, so housekeeping must not change what is delivered
+fn deliver_paced(sh: &Shape, delivered: &[usize], tag: &str, slow_s: Option<u64>, out: &mut Vec<Violation>) -> (u64, u64) {
     let em = &sh.em;
     let r = util::guarded(|| {
-        receive(&em.spec.endpoint(), delivered.iter().map(|k| (em.stream[*k].bytes.as_slice(), em.stream[*k].t)), &RxOpts::default(), None)
+        match slow_s {
+            None => receive(&em.spec.endpoint(), delivered.iter().map(|k| (em.stream[*k].bytes.as_slice(), em.stream[*k].t)), &RxOpts::default(), None),
+            Some(gap) => {
+                let mut o = RxOpts::default();
+                o.config.object_timeout = Some(std::time::Duration::from_secs(10));
+                o.cleanup_every_push = true;
+                let t0 = delivered.first().map(|k| em.stream[*k].t).unwrap_or(util::t0());
+                receive(&em.spec.endpoint(), delivered.iter().enumerate().map(|(n, k)| (em.stream[*k].bytes.as_slice(), t0 + std::time::Duration::from_secs(gap * n as u64))), &o, None)
+            }
+        }
     });
     let mut n_dec = 0;
     let mut n_ok = 0;
@@ -627,6 +643,7 @@ fn main() {
                 any_split
             };
             let (mut n_dec, mut n_runs, mut n_fdt_split, mut n_obj_split) = (0, 0, 0u64, 0u64);
+            let mut n_slow = 0u64;
             for round in 0..4 {
                 let mut keep: std::collections::BTreeSet<usize> = Default::default();
                 // FDT: the first instance listing the object is split over its first two copies, later copies of it are
@@ -671,7 +688,16 @@ fn main() {
                 let (d, _) = deliver(&sh, &delivered, tag, &mut cr.violations);
                 n_dec += d;
                 n_runs += 1;
+                // the same packets 1-4 s apart (the whole delivery lasts longer than the object timeout, no gap does)
+                if delivered.len() < 600 {
+                    let slow_tag = match (fdt_split, obj_split) { (true, true) => "fdt_and_object_spread_slow", (true, false) => "fdt_spread_slow", _ => "object_spread_slow" };
+                    let (d, _) = deliver_paced(&sh, &delivered, slow_tag, Some(1 + (round as u64 + i as u64) % 4), &mut cr.violations);
+                    n_dec += d;
+                    n_runs += 1;
+                    n_slow += 1;
+                }
             }
+            cr.count("deliveries_seconds_apart_with_cleanup", n_slow);
             cr.count("deliveries", n_runs);
             cr.count("decodable_deliveries", n_dec);
             cr.count("fdt_instance_spread_over_copies", n_fdt_split);
